@@ -19,7 +19,7 @@ def rule_ids(c, prog):
     i2v = {k[1]: vname(v[1]) for k, v in tm.items() if k[0] == "lit" and v[0] == "v"}
     for d in fd + td:
         c.violation(R, f"dup|{d}", f"type_ids! lists {d} twice", frm.sp)
-    c.floor(R, len(i2v), 19, "attribute type ids")
+    c.floor(R, len(i2v), 18, "attribute type ids")
     for i, v in sorted(i2v.items()):
         if v2i.get(v) == i:
             c.ok(R, f"inv:{v}")
